@@ -60,9 +60,12 @@ def run(ctx):
     ctx.rule = ("C03 position set x both parities x {airborne, surface} x reference offsets {0, +-(half zone - margin) in lat, in "
                 "lon, four corners} on the 360/2^20-degree grid (quick: centre + 3 random of the 8); exactly-half-zone references "
                 "excluded as the statement says 'closer than'; distinct = (fn, kind, parity, a, o, offset)")
-    states = cprgen.run_model(ctx, "local", "C04 local decode")
-    ctx.extra["model_cases"] = len(states)
-    ctx.check_events(vectors(ctx, states), case_of=case_of)
+    ctx.extra["model_cases"] = 0
+    for phase in cprgen.phases(ctx):
+        states = cprgen.run_model(ctx, "local", "C04 local decode" + " (anchor shard %d/4)" % phase, phase)
+        ctx.extra["model_cases"] += len(states)
+        ctx.check_events(vectors(ctx, states), case_of=case_of)
+        del states
 
 
 replay = c01.replay
